@@ -8,6 +8,7 @@ from crysp.bits import *
 from crysp.poly import Poly
 from crysp.utils.operators import *
 from crysp import salsa20
+from crysp.salsa20 import _verif_on
 
 cM    = salsa20.rMinv
 cMinv = salsa20.rM
@@ -32,6 +33,7 @@ class Chacha(salsa20.Salsa20):
         self.p[14:16] = v.split(32)
         maxlen = 1<<64
         i = 0
+        if _verif_on: i = getattr(self,'_verif_block0',0)
         while i<maxlen:
             self.p[12:14] = (i&0xffffffff,i>>32)
             yield self.core(self.p,dround=self.dround)
